@@ -37,6 +37,10 @@ type Unit struct {
 	// OnlyObl, when set, selects the obligations of this unit that belong to
 	// the property being checked (the unit is shared with another property).
 	OnlyObl func(name string) bool
+	// AbstractArith: multiplication and unsigned division of non-constant
+	// operands are replaced, in the whole obligation (path conditions
+	// included), by the uninterpreted symbols umulN/udivN plus ground axioms.
+	AbstractArith bool
 }
 
 // Outcome of one named obligation.
@@ -101,83 +105,108 @@ func Check(m *sx.Machine, units []*Unit, cfg Config) *Report {
 	if cfg.Timeout <= 0 {
 		cfg.Timeout = 20
 	}
-	var groups []*rawObl
-	// explore all units in parallel
-	type explored struct {
-		results []sx.PathResult
-		err     error
-	}
-	exp := make([]explored, len(units))
-	{
-		var ewg sync.WaitGroup
-		esem := make(chan struct{}, cfg.Workers)
-		for i, u := range units {
-			ewg.Add(1)
-			esem <- struct{}{}
-			go func(i int, u *Unit) {
-				defer ewg.Done()
-				defer func() { <-esem }()
+	// Units are processed by a pool of workers: a unit is explored, its
+	// obligations are grouped and solved, and only the outcomes are kept, so
+	// that the memory needed is bounded by the units in flight.
+	var mu sync.Mutex
+	var allOuts [][]*Outcome = make([][]*Outcome, len(units))
+	var exploreNanos int64
+	var uwg sync.WaitGroup
+	usem := make(chan struct{}, cfg.Workers)
+	for ui, u := range units {
+		uwg.Add(1)
+		usem <- struct{}{}
+		go func(ui int, u *Unit) {
+			defer uwg.Done()
+			defer func() { <-usem }()
+			te := time.Now()
+			var results []sx.PathResult
+			var err error
+			func() {
 				defer func() {
 					if r := recover(); r != nil {
-						exp[i].err = fmt.Errorf("engine panic in unit %s %s: %v", u.Func, u.Instance, r)
+						err = fmt.Errorf("engine panic in unit %s %s: %v", u.Func, u.Instance, r)
 						if cfg.Verbose {
 							buf := make([]byte, 1<<14)
 							n := runtime.Stack(buf, false)
-							exp[i].err = fmt.Errorf("%v\n%s", exp[i].err, buf[:n])
+							err = fmt.Errorf("%v\n%s", err, buf[:n])
 						}
 					}
 				}()
-				exp[i].results, exp[i].err = u.Run(m)
-				// paths are no longer needed once their obligations are collected
-				for k := range exp[i].results {
-					exp[i].results[k].Path = nil
+				results, err = u.Run(m)
+			}()
+			atomic.AddInt64(&exploreNanos, int64(time.Since(te)))
+			for k := range results {
+				results[k].Path = nil
+			}
+			mu.Lock()
+			rep.Units++
+			rep.Funcs[u.Func] = true
+			if err != nil {
+				rep.Errors = append(rep.Errors, fmt.Sprintf("%s %s: %v", u.Func, u.Instance, err))
+				mu.Unlock()
+				return
+			}
+			rep.Paths += len(results)
+			if cfg.Verbose {
+				reasons := map[string]int{}
+				for _, r := range results {
+					reasons[r.Reason]++
 				}
-			}(i, u)
-		}
-		ewg.Wait()
-	}
-	rep.ExploreSecs = time.Since(t0).Seconds()
-	for i, u := range units {
-		rep.Units++
-		rep.Funcs[u.Func] = true
-		results, err := exp[i].results, exp[i].err
-		if err != nil {
-			rep.Errors = append(rep.Errors, fmt.Sprintf("%s %s: %v", u.Func, u.Instance, err))
-			continue
-		}
-		rep.Paths += len(results)
-		if cfg.Verbose {
-			reasons := map[string]int{}
+				fmt.Printf("  unit %s %s: path ends %v\n", u.Func, u.Instance, reasons)
+			}
+			mu.Unlock()
+			byName := map[string]*rawObl{}
+			var order []string
 			for _, r := range results {
-				reasons[r.Reason]++
+				for _, o := range r.Obls {
+					n := o.Name
+					if u.OnlyObl != nil && !u.OnlyObl(n) {
+						continue
+					}
+					if u.Instance != "" {
+						n += " @" + u.Instance
+					}
+					g, ok := byName[n]
+					if !ok {
+						g = &rawObl{name: n, unit: u}
+						byName[n] = g
+						order = append(order, n)
+					}
+					g.obls = append(g.obls, o)
+				}
 			}
-			fmt.Printf("  unit %s %s: path ends %v\n", u.Func, u.Instance, reasons)
-		}
-		byName := map[string]*rawObl{}
-		var order []string
-		for _, r := range results {
-			for _, o := range r.Obls {
-				n := o.Name
-				if u.OnlyObl != nil && !u.OnlyObl(n) {
-					continue
-				}
-				if u.Instance != "" {
-					n += " @" + u.Instance
-				}
-				g, ok := byName[n]
-				if !ok {
-					g = &rawObl{name: n, unit: u}
-					byName[n] = g
-					order = append(order, n)
-				}
-				g.obls = append(g.obls, o)
+			results = nil
+			var groups []*rawObl
+			for _, n := range order {
+				groups = append(groups, byName[n])
 			}
-		}
-		for _, n := range order {
-			groups = append(groups, byName[n])
-		}
+			outs := solveGroups(groups, cfg)
+			for _, o := range outs {
+				if o.Status == "proved" || o.Status == "trivial" {
+					o.Query = nil // release the terms
+				}
+			}
+			allOuts[ui] = outs
+		}(ui, u)
 	}
-	// solve
+	uwg.Wait()
+	rep.ExploreSecs = float64(exploreNanos) / 1e9 / float64(cfg.Workers)
+	var outs []*Outcome
+	for _, os := range allOuts {
+		outs = append(outs, os...)
+	}
+	for _, o := range outs {
+		rep.SolverSecs += o.Seconds
+	}
+	rep.Outcomes = outs
+	rep.Wall = time.Since(t0).Seconds()
+	return rep
+}
+
+
+// solveGroups discharges the obligation groups of one unit.
+func solveGroups(groups []*rawObl, cfg Config) []*Outcome {
 	outs := make([]*Outcome, len(groups))
 	var wg sync.WaitGroup
 	for i, g := range groups {
@@ -193,6 +222,11 @@ func Check(m *sx.Machine, units []*Unit, cfg Config) *Report {
 		if len(goals) == 0 {
 			o.Status = "trivial"
 			continue
+		}
+		if g.unit.AbstractArith {
+			for k := range goals {
+				goals[k] = smt.AbstractArith(goals[k])
+			}
 		}
 		goal := smt.And(goals...)
 		if goal.IsTrue() {
@@ -322,14 +356,8 @@ func Check(m *sx.Machine, units []*Unit, cfg Config) *Report {
 		}(o, q, g, goals)
 	}
 	wg.Wait()
-	for _, o := range outs {
-		rep.SolverSecs += o.Seconds
-	}
-	rep.Outcomes = outs
-	rep.Wall = time.Since(t0).Seconds()
-	return rep
+	return outs
 }
-
 func evalBool(t *smt.Term, model map[int]*smt.Term) bool {
 	defer func() { recover() }()
 	r := smt.Eval(t, model)
